@@ -25,6 +25,7 @@ type Config struct {
 	Workers       int
 	MaxPaths      int
 	WriteMonitor  bool // C20: report stores into pre-existing objects
+	ArbNarrow     bool // vrt.Arbitrary: collections of at most one item
 	SharedExplicit bool // C20: only globals and what vrt.Shared marks count as pre-existing (shared) state
 	StopOnFirst   bool
 	ArbWide       bool // vrt.Arbitrary: collections of up to 2 entries one level deeper
@@ -272,7 +273,11 @@ func (p *Path) fresh(prefix string, s smt.Sort) *smt.Term {
 
 func (p *Path) freshNamed(name string, s smt.Sort) *smt.Term {
 	v := smt.Var(sanitize(name), s)
-	p.S.Declare(v)
+	// under vrt.ShareNames the same name denotes the same input: declared once per path
+	if !p.declFuns["var|"+v.Name] {
+		p.declFuns["var|"+v.Name] = true
+		p.S.Declare(v)
+	}
 	return v
 }
 
@@ -674,8 +679,10 @@ func (e *Engine) RunPath(s *smt.Solver, st *Stats, t Task) (res PathResult, work
 	}()
 	// package initialisers (concrete; unsupported calls poison the variable)
 	p.initMode = true
-	for _, pkg := range e.InitPkgs {
-		if f := pkg.Func("init"); f != nil {
+	// the harness's own package; its init runs the inits of what it imports
+	// (those of packages that are executed symbolically: isInitPkg)
+	if t.Fn.Pkg != nil {
+		if f := t.Fn.Pkg.Func("init"); f != nil {
 			p.exec(f, nil, nil, nil)
 		}
 	}
